@@ -127,6 +127,19 @@ func suiteScan(o *Out, thorough bool, seed int64) {
 		emit(text, true)
 	})
 	o.Notes = append(o.Notes, "exhaustive: all sequences of 2..5 symbols over {U+0628, U+0661, U+0301, U+200D, e-acute, a, space, +, 1, NBSP}")
+	// every white-space and line-break code point of the language (and its neighbours) between, before and after
+	// tokens, alone and in runs of two: the scanner's own use of the classes, not just the class functions
+	{
+		ws := []rune{9, 10, 11, 12, 13, 32, 133, 160, 5760, 6158, 8192, 8193, 8194, 8195, 8196, 8197, 8198, 8199, 8200, 8201, 8202, 8203, 8204, 8232, 8233, 8239, 8287, 8288, 12288, 65279, 65278, 0x1680, 0x180E, 0xFFFE, 0x2060}
+		for _, a := range ws {
+			for _, tmpl := range []string{"a%sb", "%sa", "a%s", "1%s+%s2", "a%s.b", "f%s(x)", "a%s!.b", "'s'%s'", "[1,%s2]", "%s", "a%s%sb"} {
+				emit([]byte(strings.ReplaceAll(tmpl, "%s", string(a))), true)
+			}
+			for _, b := range ws {
+				emit([]byte("a"+string(a)+string(b)+"(b)"), true)
+			}
+		}
+	}
 	r := newRand(seed, "scan")
 	n := 20000
 	if thorough {
